@@ -1065,9 +1065,9 @@ func repsStream(r *Run) {
 			r.Emit(c, replayers["reps"](r, f))
 		}
 	}
-	n := 700
+	n := 5000
 	if r.Tier == "thorough" {
-		n = 25000
+		n = 80000
 	}
 	seen := map[string]bool{}
 	for i := 0; i < n; i++ {
